@@ -8,6 +8,33 @@ TRUST = ("Trusted base: the symgo interpreter (validated on every run by replayi
          "everything inside a shape (bytes, runes, digits, integers, case bits) is a solver variable. Outside the stated bounds nothing is claimed.")
 
 CHECKS = {
+ "C01": dict(level="model_checking", technique="bounded symbolic execution of lexer+parser on statement skeletons with symbolic holes vs. generator-built AST (one deep-equality term per path)",
+   text="27 statement families (every handler of the parser's Language tree; a coverage harness fails if a handler has no generator) are rendered from grammar skeletons whose keyword letter case, whitespace gaps, identifier characters, string characters, integer digits and duration digits are solver variables; the AST returned by the real ParseQuery must be deeply equal (every field, set or not) to the AST the generator built from the same choices. Shapes (option subsets, expression forms, quoting forms, digit counts) are enumerated one-variant-at-a-time (pairwise in thorough).",
+   note="Shape coverage is one-at-a-time around a default skeleton (quick) / pairwise (thorough), not the full product; names <= 2 (3) characters; float spellings, regex bodies and time-zone names are from lists. "+TRUST, ref="DESIGN.md section 4 C01"),
+ "C02": dict(level="model_checking", technique="bounded symbolic execution: parse -> String() -> parse on the C01 skeletons, deep AST equality",
+   text="For every C01 skeleton the parsed statement is printed by the real String() methods on symbolic content (quoting decisions, escapes, decimal rendering are executed symbolically) and parsed again; the two ASTs must be deeply equal. Password statements are excluded (redacted on purpose).",
+   note="Same shape bounds as C01. One genuine printer defect (empty quoted measurement name) is a known finding; four others were repaired in /repo. "+TRUST, ref="DESIGN.md section 4 C02"),
+ "C03": dict(level="model_checking", technique="symbolic operator tokens injected through bound parameters; real ParseExpr vs. reference precedence climber",
+   text="Chains of 2..4 (5) operands whose operators are solver variables over all 18 operator tokens (injected as symbolic Token values through the parser's parameter substitution), with negated operands, parenthesised sub-chains and regex operators: the tree built by the real ParseExpr equals the reference grouping by the five levels of the property statement, left-associative; printing and re-parsing keeps the grouping (18^(k-1) spellings for k <= 3 (4)).",
+   note="Operands are plain names; the operator injection uses the parser's own params map (in-package harness). "+TRUST, ref="DESIGN.md section 4 C03"),
+ "C09": dict(level="model_checking", technique="bounded symbolic execution of Reduce and ValuerEval on trees with symbolic operators and symbolic 64-bit / float64 leaves",
+   text="Every well-typed tree with one binary node (all operators x all operand kind pairs x all 9 splits of the bindings between Reduce and the evaluator) and with two binary nodes (pairwise-covering kind and binding assignments) over symbolic int64, uint64, float64 and bool leaves: Eval(Reduce(e, part), rest) equals Eval(e, all) (dynamic type and value, NaN = NaN), and Reduce is idempotent.",
+   note="String operands and the time-arithmetic clause are not covered yet; math.Mod is an uninterpreted function. "+TRUST, ref="DESIGN.md section 4 C09"),
+ "C10": dict(level="model_checking", technique="bounded symbolic execution of ConditionExpr with symbolic operators, bounds, clock and point vs. reference truth",
+   text="Ten condition shapes (1..3 time bounds on either side, AND nesting with parentheses, OR among non-time predicates, boolean literals) with symbolic comparison operators, symbolic int64 / duration / now()+-d bounds, symbolic clock and a symbolic point (timestamp, tag value, field value): the original condition holds at the point iff the timestamp is inside [MinTimeNano, MaxTimeNano] and the residual evaluates to true; errors only for bounds outside the representable timestamps.",
+   note="Date/time string bounds are concrete samples; symbolic instants are exact 72-bit integers in the engine's time model. "+TRUST, ref="DESIGN.md section 4 C10"),
+ "C13": dict(level="model_checking", technique="bounded symbolic execution: every public operation on parsed statements, panic paths decided by the solver",
+   text="SELECT statements built to pass the parser but not a validator (special-cased function names with 0..3 arguments of every kind, GROUP BY time() with 0..3 arguments, zero/negative intervals with symbolic digits, fractional divisors, wildcards and regexes in odd places) x 24 operations (print, clone, walk, the rewrites, RewriteFields under a schema, Reduce, evaluation, EvalType, ConditionExpr, GROUP BY interval/offset/Normalize, column and field names, privileges, SetTimeRange): no feasible panic path; plus print/walk/privileges/default database on every other statement family.",
+   note="Division by a symbolic value, slice bounds and type assertions are panic paths decided per path; seven panics found this way were repaired in /repo. "+TRUST, ref="DESIGN.md section 4 C13"),
+ "C14": dict(level="model_checking", technique="bounded symbolic execution + heap monitors: deep equality, reachable-object disjointness, write-set monitor",
+   text="For parsed SELECT skeletons (with the parser-unset flags set to symbolic values): Clone / CloneExpr results are deeply equal to the original over all fields and share no mutable heap object with it (which, with rewrites that only store below their receiver, makes every later mutation invisible to the other side); Reduce, RewriteFields, evaluation, String, ColumnNames, RequiredPrivileges and Clone perform no store into any object reachable from their receiver or from package state.",
+   note="Disjointness and the write monitor are exact on the interpreter's concrete heap; regexps and time locations are immutable handles. "+TRUST, ref="DESIGN.md section 4 C14"),
+ "C19": dict(level="model_checking", technique="bounded symbolic execution of RequiredPrivileges on all statement skeletons; parse-tree coverage harness",
+   text="Every statement family of the parse tree (walked at run time; a missing generator fails the check): privileges are returned without error and are non-empty, administrative kinds (list transcribed from the property) require admin; for SELECT / EXPLAIN with 1..3 levels of subqueries and sources in symbolic databases every database read gets a read privilege and the INTO target's database a write privilege.",
+   note=TRUST, ref="DESIGN.md section 4 C19"),
+ "C20": dict(level="model_checking", technique="bounded symbolic execution of ColumnNames with symbolic names (map with symbolic keys)",
+   text="Field lists of 1..3 (4) fields (references, calls, binary expressions, parenthesised fields, top()/bottom() with tag arguments, aliases; with/without INTO, OmitTime, time alias) whose names have a symbolic first character and a suffix from {'', _1, _2, _1_1}: one name per column, time column first, aliases verbatim, and whenever the aliases are pairwise distinct all field columns are pairwise distinct; second call equal, statement unchanged.",
+   note="Names are over a small alphabet chosen so that generated names, aliases and suffix forms can collide. "+TRUST, ref="DESIGN.md section 4 C20"),
  "C05": dict(level="model_checking", technique="bounded symbolic execution of the real scanner (go/ssa interpreter + SMT path feasibility), measured token extents vs. reference line/column model",
    text="Every text of up to 3 (quick) / 4 (thorough) characters, each character ANY Unicode scalar value except NUL (solver variable), is scanned by the real Scanner over a counting rune source; on every feasible path the assertions (termination with sticky EOF, progress, push-back within the ring, position == reference line/column with CRLF / lone CR folded, literal == extent for WS/INTEGER/DURATIONVAL/bare IDENT) are decided by the path condition. Exhaustive over path classes within the bound.",
    note="NUL is excluded (it is the scanner's in-band EOF marker). Two genuine position defects are pinned by existing tests and listed in known_findings.json. "+TRUST, ref="DESIGN.md section 4 C05"),
